@@ -18,7 +18,10 @@ RULE = ('case idx -> kind (idx mod 9): all 36 pairs of version ranges; all 45 si
         'pairs (all 1980 x 3 key kinds in the thorough tier, a seed-dependent sample in quick) against a shuffled server list with and '
         'without BR_OPT_ENFORCE_SERVER_PREFERENCES; all 256 client x server flag combinations with and without a client-certificate '
         'request and client certificate none/RSA/EC; hash subsets (all 64 per side, repaired to the caller\'s obligations: MD5+SHA-1 '
-        'below TLS 1.2, MAC and PRF hash of every listed suite) and curve subsets (15 x 15, restricted br_ec_impl); ALPN lists of 0-3 of 4 '
+        'below TLS 1.2, MAC and PRF hash of every listed suite) and curve subsets (15 x 15, restricted br_ec_impl), in half of these '
+        'cases with a client-certificate request to a client that mostly has an RSA or EC (P-256) certificate, a third of those with '
+        'SHA-256 taken away from one side and, for an EC certificate against a P-256 server key, a third with the static ECDH suites '
+        'first; in every other kind hash and curve subsets are drawn with and without client authentication too; ALPN lists of 0-3 of 4 '
         'names per side, SNI none / SAN names / 255 bytes / arbitrary non-zero bytes; random longer lists; scripted ClientHellos (no '
         'client engine): unknown / GREASE suites, extensions, curves and signature algorithms, duplicated suites, both SCSVs anywhere, no '
         'or empty extension block, SNI of length 0 / 255 / 256 / 300, legacy and future client_version; scripted ServerHellos (no server '
@@ -32,7 +35,9 @@ RULE = ('case idx -> kind (idx mod 9): all 36 pairs of version ranges; all 45 si
         'data or unsolicited, max_fragment_length other / unsolicited / bad length, ALPN foreign name / two names / empty list / empty '
         'name / bad lengths / unsolicited, unsolicited signature_algorithms / supported_groups / ec_point_formats, unknown or GREASE '
         'extension, duplicated extension, block length, trailing bytes, message length short / long, later record of another version, '
-        'next message not a Certificate, ChangeCipherSpec instead of it); 22 % of the clients offer a session to resume, which the '
+        'next message not a Certificate, ChangeCipherSpec instead of it, a complete Certificate message with an empty certificate '
+        'list, a Certificate message of length 3 whose list length is not zero: both must make the client fail); 22 % of the clients '
+        'offer a session to resume, which the '
         'server ignores or takes up (same ID: same version and suite, then ChangeCipherSpec; defects: other version, other suite, '
         'malformed ChangeCipherSpec, a handshake message instead). The reference decodes the client\'s ClientHello (must equal the configuration; tells which '
         'extensions were sent) and the fed records on its own and demands: carry on without error and report the ServerHello\'s version, '
@@ -41,8 +46,19 @@ RULE = ('case idx -> kind (idx mod 9): all 36 pairs of version ranges; all 45 si
         'are drawn at random (server key RSA / P-256 under EC or RSA CA / P-384, usages KEYX / SIGN / both). The reference computes '
         'version, suite, ECDHE curve, signature hash, ALPN name, SNI, alert, error codes, renegotiate() result and client-certificate '
         'visibility from the two configurations and every logged field is compared; both endpoints must agree; the ClientHello on the '
-        'wire must equal the client configuration and the ServerHello must carry exactly the solicited extensions. distinct = '
-        'configuration tuples and outcome tuples.')
+        'wire must equal the client configuration and the ServerHello must carry exactly the solicited extensions. Client '
+        'authentication under hash / curve subsets: the harness logs the bodies of CertificateRequest, the client\'s Certificate and '
+        'CertificateVerify, the length of ClientKeyExchange (independent wire decoder) and what the server\'s X.509 validator was fed '
+        'in this handshake (length and FNV-1a of each certificate); the reference demands: CertificateRequest = types 1, 64 (+ 65, 66 '
+        'exactly with an ECDH_* suite), in TLS 1.2 every SHA-1..SHA-512 function of the server engine with RSA and ECDSA and nothing '
+        'else, the DNs of the configured trust anchors (read from the fixture DER files); the client answers with a Certificate message '
+        'holding exactly its configured chain (empty without certificate); the server validator is fed exactly these certificates, '
+        'once; an RSA key signs CertificateVerify, in TLS 1.2 naming (hash, rsa) with the first of SHA-256, SHA-384, SHA-512, SHA-224, '
+        'SHA-1 that the request lists for RSA and the client engine has (it must be a listed pair, RFC 5246 7.4.8); an EC key does the '
+        'same with ecdsa, or full static ECDH (empty ClientKeyExchange, no CertificateVerify), which is accepted only with an ECDH_* '
+        'suite and a server key on the client key\'s curve; a certificate without either proof never completes; valid chain and '
+        'proof: the handshake completes; no certificate: BR_ERR_NO_CLIENT_AUTH, or completion under BR_OPT_TOLERATE_NO_CLIENT_AUTH. '
+        'distinct = configuration tuples and outcome tuples.')
 ASSUMPTIONS = [
     'the reference (harness/nego_ref.py) states the rules of inc/bearssl_ssl.h, of the explanatory comments in ssl_hs_server.t0 / '
     'ssl_hs_client.t0 / inner.h and of RFC 5246, 4492, 5746, 7301, 7507; its docstring lists the source of each rule',
@@ -54,7 +70,19 @@ ASSUMPTIONS = [
     'server choice only "no completion" is required',
     'set_protocol_names() says an ALPN mismatch aborts; the more specific BR_OPT_FAIL_ON_ALPN_MISMATCH text (carry on without the '
     'flag) is taken as the rule',
-    'client authentication is exercised with full hash and curve sets and valid client chains only (C03 covers forged ones)',
+    'client authentication is exercised with valid client chains only (C03 covers forged ones); the server\'s X.509 engine keeps all '
+    'hash functions and curves (the subsets are those of the SSL engines), the key handlers of both sides run on the unrestricted '
+    'EC implementation',
+    'client authentication, not judged beyond "both sides agree; no completion with an unauthenticated client without '
+    'BR_OPT_TOLERATE_NO_CLIENT_AUTH" (counted as unjudged_client_auth_*): an ECDSA CertificateVerify when the server engine\'s EC '
+    'implementation lacks the curve of the client key (documented: that implementation serves "ECDSA support"; the outcome is not), '
+    'static ECDH when the client engine lacks the server key curve, no common hash in TLS 1.2 (cannot occur within the caller\'s '
+    'obligations: the PRF hash of the suite is on both sides, hence SHA-512 / SHA-224 / SHA-1 are never the chosen hash and only the '
+    'head of the preference order is observable); where static ECDH and ECDSA are both possible the handler "chooses" '
+    '(bearssl_ssl.h): either is accepted (client_auth_static_ecdh / client_auth_ecdsa_where_static_ecdh_possible)',
+    'scripted ServerHello followed by a Certificate message with an empty list, or of length 3 with a non-zero list length: "the '
+    'client fails" is demanded (RFC 5246 7.4.2; T0 comment of read-Certificate), the error code is not (bearssl_ssl.h does not pin '
+    'it; the code says BR_ERR_UNEXPECTED / BR_ERR_BAD_PARAM)',
     'certificate name matching is bypassed for SNI strings that are not in the fixture certificates (C04 covers name matching)',
     'scripted ServerHello: bearssl_ssl.h documents error codes, not alerts, for a client that refuses a ServerHello (a sent alert '
     'would show as last_error 512+alert): alerts of the client are counted (srvhello_refused_with/without_alert), not demanded',
@@ -72,6 +100,8 @@ FIELDS = ['cmp_outcome', 'cmp_version', 'cmp_suite', 'cmp_curve', 'cmp_sig_hash'
           'cmp_alert_record_version', 'cmp_error_code', 'cmp_reneg', 'cmp_client_cert', 'cmp_client_offer', 'cmp_fail_any',
           'cmp_wire_server_hello', 'cmp_wire_extensions', 'cmp_wire_key_exchange',
           'cmp_sides_ver', 'cmp_sides_suite', 'cmp_sides_curve', 'cmp_sides_proto', 'cmp_sides_name', 'cmp_sides_reneg']
+CA_FIELDS = ['cmp_cert_request', 'cmp_cert_request_algorithms', 'cmp_client_chain', 'cmp_client_chain_validator', 'cmp_cert_verify',
+             'cmp_cert_verify_algorithm']
 SRV_FIELDS = ['cmp_srvhello_outcome', 'cmp_srvhello_error_code', 'cmp_srvhello_suite_offered', 'cmp_srvhello_version',
               'cmp_srvhello_suite', 'cmp_srvhello_alpn', 'cmp_srvhello_mfln', 'cmp_srvhello_reneg']
 # every defect class the reference knows must have been met (the rarest ones a handful of times per quick run)
@@ -80,7 +110,8 @@ SRV_DEFECTS = ['srvhello_defect_' + d for d in (
     'suite_is_signalling_value', 'suite_needs_tls12', 'compression', 'extension_not_solicited', 'extension_duplicated',
     'sni_not_empty', 'mfl_differs', 'mfl_malformed', 'reneg_info_not_empty', 'reneg_info_malformed', 'alpn_malformed',
     'alpn_name_not_offered_flag', 'framing', 'later_record_version_differs', 'next_message_not_certificate',
-    'ccs_instead_of_certificate', 'resume_mismatch', 'handshake_message_instead_of_ccs', 'malformed_ccs')]
+    'ccs_instead_of_certificate', 'resume_mismatch', 'handshake_message_instead_of_ccs', 'malformed_ccs',
+    'empty_certificate_list', 'certificate_list_length')]
 REQUIRED = ['cases', 'cases_checked', 'cases_pair', 'cases_scripted', 'handshakes_completed', 'handshakes_failed',
             'scripted_answered_server_hello', 'scripted_refused', 'expect_ok', 'expect_alert', 'expect_scripted_ok',
             'expect_scripted_alert', 'scripted_duplicate_suites', 'scripted_unknown_suite_values',
@@ -89,7 +120,12 @@ REQUIRED = ['cases', 'cases_checked', 'cases_pair', 'cases_scripted', 'handshake
             'cases_scripted_srv', 'expect_srvhello_accept', 'expect_srvhello_refuse', 'srvhello_accepted', 'srvhello_refused',
             'srvhello_single_defect', 'srvhello_several_defects', 'srvhello_client_sent_mfl', 'srvhello_mfl_echoed',
             'srvhello_alpn_foreign_name_without_flag', 'srvhello_client_offers_session', 'srvhello_resumed',
-            'srvhello_resumed_ccs_taken', 'srvhello_full_handshake'] + FIELDS + SRV_FIELDS + SRV_DEFECTS
+            'srvhello_resumed_ccs_taken', 'srvhello_full_handshake', 'srvhello_certificate_message_of_length_3',
+            # client authentication under hash / curve subsets
+            'client_auth_requested', 'client_auth_rsa_signed', 'client_auth_ecdsa_signed', 'client_auth_static_ecdh',
+            'client_auth_none_refused', 'client_auth_none_tolerated', 'client_auth_with_reduced_hashes',
+            'client_auth_with_reduced_curves', 'cert_verify_hash_other_than_sha256', 'cert_verify_below_tls12',
+            'cmp_client_auth_safety'] + FIELDS + CA_FIELDS + SRV_FIELDS + SRV_DEFECTS
 NW = 16
 CASES = {'quick': 6750, 'thorough': 337500}   # 9 slots (h_tls15 NSLOTS): 750 / 37500 cases per slot
 LOGDIR = os.path.join(vbuild.BUILD, 'c15-logs')
@@ -163,7 +199,9 @@ def finish(res, tier, seed):
 
 
 def coverage_extra(res, tier):
-    return dict(fields_compared={k: res.sums.get(k, 0) for k in FIELDS + SRV_FIELDS},
+    return dict(fields_compared={k: res.sums.get(k, 0) for k in FIELDS + CA_FIELDS + SRV_FIELDS},
+                client_authentication={k: v for k, v in sorted(res.sums.items())
+                                       if k.startswith('client_auth_') or k.startswith('cert_verify_')},
                 scripted_server_hello={k: v for k, v in sorted(res.sums.items()) if k.startswith('srvhello_') or k.startswith('scripted_srv')},
                 expectations={k: v for k, v in sorted(res.sums.items()) if k.startswith('expect_') or k.startswith('reason_')},
                 not_judged={k: v for k, v in sorted(res.sums.items()) if k.startswith('unjudged_')},
